@@ -13,7 +13,7 @@ import (
 
 func init() {
 	register(&Property{
-		ID: "C07",
+		ID:          "C07",
 		Explanation: "Insert discipline of the index store, the one structural necessary condition of idempotent replay: (guarded-insert) every call of the generated (*models.Header).Insert in pkg/persisters is reachable only across the edge on which a lookup by the same key columns (name, linkname) of the same row variable returned sql.ErrNoRows, and the CREATE arm of the replay switch goes through that method; (guarded-key-rewrite) every raw `update ... set name = ?` statement (a primary-key rewrite) must be dominated by a check or clearing of the destination key; (replay-arms) the replay switch handles the three STFS actions and rejects unknown ones.",
 		NotDecided:  "Convergence itself (SQL state over histories), DELETE replay over tombstones, the `recovery index` default of overwrite=false.",
 		Assumptions: []string{"the headers table's primary key is (name, linkname) as in the migration"},
